@@ -471,6 +471,11 @@ def call_builtin(interp, name, args, kwargs, site):
     if name == "isinstance":
         v, c = args
         cs = c if isinstance(c, tuple) else (c,)
+        if isinstance(v, (Source, UserFn, Opaque)) and interp.side == "impl" and interp.frames:
+            mod = interp.frames[-1].fn.module.modname
+            for c1 in cs:
+                if isinstance(c1, Builtin) and c1.name in ("typing.AsyncIterable", "typing.Awaitable", "typing.Iterable", "typing.Coroutine") and mod not in ("_core", "asynctools", "core_adapters", "canary_sync"):
+                    interp.flavour_tests.append((mod, site, f"isinstance(_, {c1.name.split('.')[-1]})"))
         for c1 in cs:
             if isinstance(c1, Builtin) and c1.name in ABC_ATTR:
                 if has_protocol(interp, v, ABC_ATTR[c1.name]):
@@ -509,6 +514,9 @@ def call_builtin(interp, name, args, kwargs, site):
             return all(v.lookup(a) is not None for a in ABC_ATTR[c.name])
         raise Unsupported("issubclass")
     if name == "hasattr":
+        if isinstance(args[0], (Source, UserFn, Opaque)) and interp.side == "impl" and interp.frames and args[1] not in (
+                "aclose", "asend", "athrow", "__aexit__", "__exit__", "__anext__", "__aiter__", "__aenter__", "__enter__"):
+            interp.flavour_tests.append((interp.frames[-1].fn.module.modname, site, f"hasattr(_, {args[1]!r})"))
         return interp.hasattr(args[0], args[1])
     if name == "getattr":
         try:
@@ -533,6 +541,10 @@ def call_builtin(interp, name, args, kwargs, site):
         return False
     if name in ("iscoroutinefunction", "inspect.iscoroutinefunction", "asyncio.iscoroutinefunction"):
         f = args[0]
+        if isinstance(f, UserFn) and interp.side == "impl" and interp.frames:
+            mod = interp.frames[-1].fn.module.modname
+            if mod not in ("_core", "asynctools", "functools", "core_adapters", "canary_sync"):
+                interp.flavour_tests.append((mod, site, "iscoroutinefunction(_)"))
         if isinstance(f, UserFn):
             if f.flavour == "any":
                 raise Unsupported("iscoroutinefunction on a flavour-generic callable")
